@@ -125,7 +125,6 @@ impl ToTokens for DeriveInputShapeSet {
         };
 
         tokens.append_all(quote! {
-            #[allow(unused_variables)]
             fn __validate_body(__body: &::darling::export::syn::Data) -> ::darling::Result<()> {
                 #fn_body
             }
